@@ -1711,9 +1711,25 @@ def replay(ctx, payload):
                 s.index, s.bracket_start, s.to_string(), [(p.name, p.kind.name) for p in s.params]))
     elif 'expr' in inp:
         full = inp['source'] + inp['expr']
+        obj, _ = exec_def(inp['source'], inp['expr'])
+        want = inspect.getdoc(obj) or ''
+        if inspect.isclass(obj) and obj.__doc__ is None:
+            want = ''
+        bad = 0
         for d in jedi.Script(full).infer(full.count('\n') + 1, len(inp['expr'])):
-            print('raw=%r' % d.docstring(raw=True))
-            print('docstring=%r' % d.docstring())
+            try:
+                raw = d.docstring(raw=True)
+                print('raw=%r' % raw)
+                print('docstring=%r' % d.docstring())
+            except Exception as e:  # noqa
+                print('docstring() raised %r' % (e,))
+                raw = None
+            bad += raw != want
+        print('inspect.getdoc=%r' % want)
+        print('expected:', payload.get('expected'))
+        print('observed at record time:', payload.get('observed'))
+        print('reproduced' if bad else 'not reproduced')
+        return 1 if bad else 0
     elif 'callee' in inp:
         src = inp['source'] + inp['callee'] + '('
         for s in jedi.Script(src).get_signatures(src.count('\n') + 1, len(inp['callee']) + 1):
